@@ -43,6 +43,7 @@ def build(names):
         p_ = os.path.join(sub, os.path.basename(rel))
         txt = open(p_).read()
         txt = _re.sub(r'^from \.\. import ', 'from atomman import ', txt, flags=_re.M)
+        txt = _re.sub(r'^from \.\.(\w+) import ', r'from atomman.\1 import ', txt, flags=_re.M)
         txt = _re.sub(r'^from \. import ', 'from atomman.' + os.path.basename(os.path.dirname(rel)) + ' import ', txt, flags=_re.M)
         open(p_, 'w').write(txt)
         pxd = os.path.join(REPO, rel[:-4] + '.pxd')
@@ -100,6 +101,12 @@ def load_sym(name, real_numpy=False):
                 m.__dict__[fn.strip()] = getattr(dm, fn.strip())
         py = re.sub(pat, 'pass', py, flags=re.M)
     py = re.sub(r'^from \.\.?\S* import .*$', lambda mo: _absimport(name, mo.group(0)), py, flags=re.M)
+    # C math library (cimported in the .pyx): the same functions on Python floats, symbolic-aware
+    mm = re.search(r'^from libc\.math import (.*?)(#.*)?$', py, flags=re.M)
+    if mm:
+        for fn in mm.group(1).split(','):
+            m.__dict__[fn.strip()] = _LIBC_MATH[fn.strip()]
+        py = re.sub(r'^from libc\.math import .*$', 'pass', py, flags=re.M)
     exec(compile(py, os.path.join(REPO, SRC[name]) + '<translated>', 'exec'), m.__dict__)
     if not real_numpy:
         m.np = sx.npshim
@@ -113,6 +120,16 @@ def _absimport(name, line):
     if line.startswith('from ..'): return line.replace('from ..', 'from atomman.', 1)
     if line.startswith('from . '): return line.replace('from . ', f'from {pkg} ', 1)
     return line.replace('from .', f'from {pkg}.', 1)
+
+
+import math as _math
+def _lm(name, f):
+    def g(x):
+        if sx.is_sym(x): return getattr(x, name)() if name != 'fabs' else abs(x)
+        return f(x)
+    return g
+_LIBC_MATH = dict(sqrt=_lm('sqrt', _math.sqrt), fabs=_lm('fabs', _math.fabs), cos=_lm('cos', _math.cos), sin=_lm('sin', _math.sin),
+                  acos=_lm('arccos', _math.acos), pi=_math.pi)
 
 
 FUNCS = {'dmag': ['dmag'], 'dvect': ['dvect'], 'nlist': ['nlist'], 'slip_vector': ['slip_vector'], 'Strain': ['Strain']}
